@@ -85,3 +85,39 @@ Theorem C02_epoch_monotone :
        micro s t rec = Some (s', obs) -> G s <= G s'.
 Proof. exact RcStampP.micro_G_mono. Qed.
 Print Assumptions C02_epoch_monotone.
+
+(* ---- the stamp written into a cascade child after the repair of finding D13 *)
+Theorem C02_child_stamp_old_all :
+  forall c a1 a2 a3 : Z,
+       epoch_ok c ->
+       STAMP_CLAMPED = true ->
+       0 <= a1 < 16 ->
+       0 <= a2 < 16 ->
+       0 <= a3 < 16 ->
+       a1 <= c + 2 ->
+       a2 <= c + 2 ->
+       a3 <= c + 2 ->
+       reclaim_now c (child_stamp c a1 a2 a3 mod 16) = true ->
+       reclaim_now c a1 = true /\ reclaim_now c a2 = true /\ reclaim_now c a3 = true.
+Proof. exact RcSnapP.child_stamp_old_all. Qed.
+Print Assumptions C02_child_stamp_old_all.
+
+Theorem C02_child_stamp_not_ahead :
+  forall c a1 a2 a3 : Z,
+       epoch_ok c ->
+       STAMP_CLAMPED = true ->
+       14 <= c ->
+       0 <= a1 < 16 ->
+       0 <= a2 < 16 ->
+       0 <= a3 < 16 ->
+       decode c (child_stamp c a1 a2 a3 mod 16) <= c + 1 /\
+       decode c (child_stamp c a1 a2 a3 mod 16) =
+       Z.min (c + 1) (Z.max (decode c a1) (Z.max (decode c a2) (decode c a3))).
+Proof. exact ModularP.child_stamp_not_ahead. Qed.
+Print Assumptions C02_child_stamp_not_ahead.
+
+Theorem C02_stamp_clamped_now :
+  STAMP_CLAMPED = true.
+Proof. exact ModularP.stamp_clamped_now. Qed.
+Print Assumptions C02_stamp_clamped_now.
+
